@@ -44,6 +44,14 @@ def numberOfString (s : Str) : SF :=
     with as many digits as needed to uniquely distinguish the number from all other doubles -/
 def stringOfNumber (x : SF) : Str := numToLit x
 
+/-- `lenient = true` is the variant of the semantics in which number('Infinity') and
+    number('-Infinity') are the infinities (known finding C01-number-of-Infinity-string);
+    the specification proper is `lenient = false`. -/
+def numOfStr (lenient : Bool) (s : Str) : SF :=
+  if lenient && trimXWS s = "Infinity".toList then .inf false
+  else if lenient && trimXWS s = "-Infinity".toList then .inf true
+  else numberOfString s
+
 def stringOf : Val → Str
   | .bool b => if b then "true".toList else "false".toList
   | .str s => s
@@ -51,11 +59,11 @@ def stringOf : Val → Str
   | .nset [] => []
   | .nset (a :: _) => a              -- string-value of the first node in document order
 
-def numberOf : Val → SF
+def numberOf (ln : Bool) : Val → SF
   | .bool b => if b then SF.one else SF.zero
-  | .str s => numberOfString s
+  | .str s => numOfStr ln s
   | .num x => x
-  | v@(.nset _) => numberOfString (stringOf v)
+  | v@(.nset _) => numOfStr ln (stringOf v)
 
 /-- §4.3 boolean(): number true iff neither ±0 nor NaN; node-set iff non-empty; string iff non-empty -/
 def booleanOf : Val → Bool
@@ -71,23 +79,25 @@ def numRel (op : BinOp) (a b : SF) : Bool := numCmp op a b
 def isRel (op : BinOp) : Bool := op = .lt || op = .gt || op = .le || op = .ge
 
 /-- neither operand is a node-set -/
-def cmpScalar (op : BinOp) (a b : Val) : Bool :=
-  if isRel op then numRel op (numberOf a) (numberOf b)
+def cmpScalar (ln : Bool) (op : BinOp) (a b : Val) : Bool :=
+  if isRel op then numRel op (numberOf ln a) (numberOf ln b)
   else
     let isB : Val → Bool := fun v => match v with | .bool _ => true | _ => false
     let isN : Val → Bool := fun v => match v with | .num _ => true | _ => false
     if isB a || isB b then (if op = .eq then booleanOf a == booleanOf b else booleanOf a != booleanOf b)
-    else if isN a || isN b then numRel op (numberOf a) (numberOf b)
+    else if isN a || isN b then numRel op (numberOf ln a) (numberOf ln b)
     else (if op = .eq then stringOf a == stringOf b else stringOf a != stringOf b)
 
-def cmp (op : BinOp) (a b : Val) : Bool :=
+def cmp (ln : Bool) (op : BinOp) (a b : Val) : Bool :=
   match a, b with
-  | .nset la, .nset lb => la.any fun x => lb.any fun y => cmpScalar op (.str x) (.str y)
-  | .nset la, .bool y => cmpScalar op (.bool (!la.isEmpty)) (.bool y)
-  | .bool x, .nset lb => cmpScalar op (.bool x) (.bool (!lb.isEmpty))
-  | .nset la, y => la.any fun x => cmpScalar op (.str x) y
-  | x, .nset lb => lb.any fun y => cmpScalar op x (.str y)
-  | x, y => cmpScalar op x y
+  | .nset [], _ => false             -- absent node: false in every comparison (property text)
+  | _, .nset [] => false
+  | .nset la, .nset lb => la.any fun x => lb.any fun y => cmpScalar ln op (.str x) (.str y)
+  | .nset la, .bool y => cmpScalar ln op (.bool (!la.isEmpty)) (.bool y)
+  | .bool x, .nset lb => cmpScalar ln op (.bool x) (.bool (!lb.isEmpty))
+  | .nset la, y => la.any fun x => cmpScalar ln op (.str x) y
+  | x, .nset lb => lb.any fun y => cmpScalar ln op x (.str y)
+  | x, y => cmpScalar ln op x y
 
 /-! ### §4 functions -/
 
@@ -126,23 +136,23 @@ def normalizeSpaceS (s : Str) : Str := joinSp (fields s)
 
 def isInfixOf (pat s : Str) : Bool := (indexOf pat s).isSome
 
-def fnS (f : Fn) (args : List Val) : Option Val :=
+def fnS (ln : Bool) (f : Fn) (args : List Val) : Option Val :=
   match f, args with
   | .boolean, [a] => some (.bool (booleanOf a))
   | .not, [a] => some (.bool (!booleanOf a))
   | .xtrue, [] => some (.bool true)
   | .xfalse, [] => some (.bool false)
-  | .number, [a] => some (.num (numberOf a))
+  | .number, [a] => some (.num (numberOf ln a))
   | .string, [a] => some (.str (stringOf a))
-  | .ceiling, [a] => some (.num (SF.ceil (numberOf a)))
-  | .floor, [a] => some (.num (SF.floor (numberOf a)))
-  | .round, [a] => some (.num (roundS (numberOf a)))
+  | .ceiling, [a] => some (.num (SF.ceil (numberOf ln a)))
+  | .floor, [a] => some (.num (SF.floor (numberOf ln a)))
+  | .round, [a] => some (.num (roundS (numberOf ln a)))
   | .concat, [a, b] => some (.str (stringOf a ++ stringOf b))
   | .contains, [a, b] => some (.bool (isInfixOf (stringOf b) (stringOf a)))
   | .startsWith, [a, b] => some (.bool (isPrefixOf (stringOf b) (stringOf a)))
   | .stringLength, [a] => some (.num (SF.ofNat (stringOf a).length))
   | .normalizeSpace, [a] => some (.str (normalizeSpaceS (stringOf a)))
-  | .substring, [a, b, c] => some (.str (substringS (stringOf a) (numberOf b) (numberOf c)))
+  | .substring, [a, b, c] => some (.str (substringS (stringOf a) (numberOf ln b) (numberOf ln c)))
   | .substringBefore, [a, b] =>
     let s := stringOf a; let p := stringOf b
     some (.str (match indexOf p s with | some i => s.take i | none => []))
@@ -169,25 +179,25 @@ def arith (op : BinOp) (a b : SF) : SF :=
   | .div => SF.div a b | .mod => SF.fmod a b | _ => .nan
 
 mutual
-def eval (env : Env) : Expr → Option Val
+def eval (ln : Bool) (env : Env) : Expr → Option Val
   | .num x => some (.num x)
   | .lit s => some (.str s)
   | .env id => some (ofDatum (env id))
-  | .neg e => do let v ← eval env e; some (.num (SF.neg (numberOf v)))
+  | .neg e => do let v ← eval ln env e; some (.num (SF.neg (numberOf ln v)))
   | .bin op a b => do
-    let x ← eval env a
-    let y ← eval env b
+    let x ← eval ln env a
+    let y ← eval ln env b
     match op with
     | .and => some (.bool (booleanOf x && booleanOf y))
     | .or => some (.bool (booleanOf x || booleanOf y))
-    | .add | .sub | .mul | .div | .mod => some (.num (arith op (numberOf x) (numberOf y)))
-    | _ => some (.bool (cmp op x y))
+    | .add | .sub | .mul | .div | .mod => some (.num (arith op (numberOf ln x) (numberOf ln y)))
+    | _ => some (.bool (cmp ln op x y))
   | .call f args => do
-    let vs ← evalList env args
-    fnS f vs
-def evalList (env : Env) : List Expr → Option (List Val)
+    let vs ← evalList ln env args
+    fnS ln f vs
+def evalList (ln : Bool) (env : Env) : List Expr → Option (List Val)
   | [] => some []
-  | e :: es => do let v ← eval env e; let vs ← evalList env es; some (v :: vs)
+  | e :: es => do let v ← eval ln env e; let vs ← evalList ln env es; some (v :: vs)
 end
 
 /-- a multi-valued leaf-list converted to a string or number: the property fixes only how it
